@@ -717,7 +717,9 @@ func (c *Ctx) boxIface(t types.Type, v *Term, st *State, g *Term) *Term {
 	c.declareFun("itag", []Sort{SInt}, SInt)
 	tag := c.typeTag(t)
 	b := app(SInt, fn, tag, v)
-	c.assume(mk(SBool, fmt.Sprintf("(and (> %s 0) (= (itag %s) %s) (= (%s %s) %s))", b.S, b.S, tag.S, un, b.S, v.S)))
+	if !strings.Contains(v.S, "q!") {
+		c.assume(mk(SBool, fmt.Sprintf("(and (> %s 0) (= (itag %s) %s) (= (%s %s) %s))", b.S, b.S, tag.S, un, b.S, v.S)))
+	}
 	return b
 }
 
